@@ -1394,6 +1394,15 @@ class C18(TraceCheck):
                "max_nesting": 1, "p_try": 1.0, "p_bool_cond": 0.5, "fxp": rng.random() < 0.3}
         plan = P.generate(rng, cfg, dict(FULL_MIX, set_ie=0, array=0, aset=0, aget=0, val=3),
                           n_stmts=rng.randrange(0, 6))
+        if rng.random() < 0.12:
+            # a successful run whose trace holds values and linear arithmetic only (no multiplication, no
+            # assertion, no boolean): still a complete trace that must be proven
+            cfg["no_default_operands"] = True
+            plan["inputs"] = [{"kind": rng.choice(["priv", "pub"]), "t": "I", "v": rng.randrange(0, 9)}
+                              for _ in range(rng.randrange(1, 4))]
+            plan["body"] = [{"s": "let", "e": {"op": rng.choice(["+", "-"]), "a": {"ref": rng.randrange(8), "t": "I"},
+                                               "b": rng.choice([{"ref": rng.randrange(8), "t": "I"}, {"k": 3, "t": "I"}]),
+                                               "t": "I"}} for _ in range(rng.randrange(0, 4))]
         mode, args = EXIT_MODES[i % len(EXIT_MODES)] if rng.random() < 0.7 else rng.choice(EXIT_MODES)
         arg = rng.choice(args) if args else ""
         k = rng.randrange(0, len(plan["body"]) + 1)
@@ -1527,7 +1536,7 @@ NEEDS = {"libsnark": "libsnark", "libsnarkgg": "libsnark", "qaptools": "qaptools
 def c19_configs():
     """The whole finite configuration space (deterministic order)."""
     out = []
-    envs = DOC_ORDER + ["bogus", None]
+    envs = DOC_ORDER + ["bogus", "", None]
     pres = [[]] + [[n] for n in DOC_ORDER] + [["zkifbellman", "snarkjs"], ["snarkjs", "zkifbellman"],
                                                ["libsnarkgg", "nobackend"]]
     loadables = []
@@ -1598,7 +1607,7 @@ class C19(TraceCheck):
         pre_ok = [e["module"] for e in ev if e["ev"] == "preimport" and e["ok"]]
         pre_names = [n for n in case["pre"] if NAME_TABLE[n][0] in pre_ok]
         viol = []
-        site0 = {"env": "known" if case["env"] in DOC_ORDER else ("unknown" if case["env"] else "unset"),
+        site0 = {"env": "known" if case["env"] in DOC_ORDER else ("unknown" if case["env"] is not None else "unset"),
                  "pre": "none" if not case["pre"] else ("one" if len(case["pre"]) == 1 else "two")}
 
         def add(oracle, detail, **extra):
@@ -1784,8 +1793,14 @@ if _ph is not None:
             _side({"ev": "permute", "inp": _vec, "out": [x.value for x in _out], "ncons": _rt.num_constraints - _n0})
         for _msg in _cfg["messages"]:
             _n0 = _rt.num_constraints
-            _out = _ph.poseidon_hash([PrivVal(v) for v in _msg])
+            _lst = [PrivVal(v) for v in _msg]
+            _out = _ph.poseidon_hash(_lst)
             _side({"ev": "hash", "msg": _msg, "out": [x.value for x in _out], "ncons": _rt.num_constraints - _n0})
+            # the same list object again: hashing must not have changed the caller's list
+            _n0 = _rt.num_constraints
+            _out = _ph.poseidon_hash(_lst)
+            _side({"ev": "hash", "msg": _msg, "out": [x.value for x in _out], "ncons": _rt.num_constraints - _n0,
+                   "again": True, "len_after": len(_lst)})
 if _rt.backend_name != "nobackend":
     from pysnark.ggh_hash import ggh_hash, ggh_hash_plain
     for _bits in _cfg["bitstrings"]:
@@ -1917,6 +1932,9 @@ class C20(TraceCheck):
                         add("sponge_ne_reference", "poseidon_hash of a %d-element message differs from the reference "
                             "(10* padding to a multiple of t-1)" % len(e["msg"]), length=len(e["msg"]) % (c["t"] - 1))
                     counts.setdefault(("hash", len(e["msg"])), set()).add(e["ncons"])
+                    if e.get("again") and e.get("len_after") != len(e["msg"]):
+                        add("hash_mutates_its_argument", "the caller's message list has %d elements after hashing, had %d" % (
+                            e["len_after"], len(e["msg"])))
                     nt.append(E.sha((path, name, e["msg"])))
             for k, s in counts.items():
                 if len(s) > 1:
